@@ -722,7 +722,9 @@ def gen_c11(tier, seed, env_text):
                   "family": "c11_functools_cached_property"})
     # replicated source annotations that are strings / NewTypes / classes of other modules (no trace for that position)
     for ann in ("'Own'", "ExtId", "zutil.A", "Optional['Own']", "List[ExtId]", "zutil.Reg.Slot[int]", "List[zutil.Reg.Slot[zutil.A]]",
-                "zutil.Outer.Inner", "Dict[str, zutil.Outer.Inner]"):
+                "zutil.Outer.Inner", "Dict[str, zutil.Outer.Inner]",
+                # PEP 585 / PEP 604 spellings in the source
+                "list[zutil.A]", "zutil.A | None", "dict[str, zutil.Outer.Inner]", "list[int] | None", "tuple[zutil.A, ...]"):
         f = {"name": "ann_" + str(abs(hash(ann)) % 1000), "container": [], "fkind": "module",
              "params": [{"name": "a", "kind": "poskw", "default": None, "ann": ann}, {"name": "b", "kind": "poskw", "default": None}],
              "ret_ann": ann, "traces": [{"args": {"b": INT}, "ret": None, "yld": None}]}
@@ -788,6 +790,8 @@ def signature(pid, clause, rec, case):
             cause = "typeddict_field_annotation_does_not_resolve"
         elif "newtype" in mods and rec["unres_sig"]:
             cause = "replicated_newtype_annotation_not_imported"
+        elif rec["unres_sig"] and any(_modern(p.get("ann")) or _modern(f.get("ret_ann")) for f in case["funcs"] for p in f["params"] + [{}]):
+            cause = "replicated_pep585_or_pep604_annotation_not_imported"
         elif rec.get("deco_unres"):
             cause = "decorator_name_not_provided"
         elif not rec["tdok"]:
@@ -807,6 +811,12 @@ def signature(pid, clause, rec, case):
             sig["unresolved"] = sorted({gen(x) for x in unres})[:3]
             sig["modules"] = sorted({gen(x) for x in mods})
     return sig
+
+
+def _modern(ann):
+    """Is this source annotation spelled with a builtin generic (PEP 585) or with `|` (PEP 604)?"""
+    import re
+    return bool(ann) and bool(re.search(r"\b(list|dict|tuple|set|frozenset|type)\[| \| ", ann))
 
 
 def _pascal(sx):
